@@ -26,7 +26,7 @@ partial def toEvents : List Line → List (Option Ev × String) → List (Option
     let push (e : Ev) := toEvents rest ((some e, l.raw) :: acc)
     let bad (_ : Unit) := toEvents rest ((none, l.raw) :: acc)
     match l.site with
-    | "sl.lock" | "ag.yield" | "event.wait" | "event.set" | "once.cas" | "once.reset" | "once.done"
+    | "sl.lock" | "ag.yield" | "event.wait" | "event.set" | "event.inlock" | "once.cas" | "once.reset" | "once.done"
     | "once.fail" | "once.body.end" => toEvents rest acc
     | "inv.ewait" => push (.inv t .wait)
     | "inv.eset" => push (.inv t .set)
